@@ -68,6 +68,7 @@ def run(tier, seed):
         plans.append(("rel", ALPHABET_ENC, [1, 2, 3], {"min": 4, "max": 300, "count": 1000000}))
     complete = {}
     done_long = set()
+    done_ops = set()
     shapes = 0
     for kind, alpha, lens, rnd in plans:
         b = build.build(kind)["vdriver"]
@@ -103,6 +104,33 @@ def run(tier, seed):
                             else:
                                 acc.seen("longest_token_bytes", r["ok"]["longest_token"])
                 acc.count("inputs_with_one_very_long_token_" + kind, long_n)
+            # every operator sequence of length 1..5 over {+ - * / ^ ** to} between simple operands (a unit after `to`, a number
+            # elsewhere), spaced and tight: the grammar's operator stack sees every order of binding levels, `to` included
+            # (seed C12-i: a fixed stack of three levels for four kinds of operator)
+            if kind not in done_ops:
+                done_ops.add(kind)
+                import itertools
+                opsq = 0
+                OPS7 = ["+", "-", "*", "/", "^", "**", "to"]
+                reqs_ = []
+                for L in (1, 2, 3, 4, 5):
+                    for seq in itertools.product(OPS7, repeat=L):
+                        if L == 5 and (hash(seq) + seed) % 3:
+                            continue          # a third of the longest ones per run
+                        toks = ["1"]
+                        for o in seq:
+                            toks += [o, "m" if o == "to" else "2"]
+                        reqs_.append(" ".join(toks))
+                        if L <= 3:
+                            reqs_.append("".join(t if t != "to" else " to " for t in toks))
+                for i_ in range(0, len(reqs_), 4000):
+                    for s_, r in zip(reqs_[i_:i_ + 4000], d.call_many([{"op": "lex", "s": x, "brief": True} for x in reqs_[i_:i_ + 4000]], timeout=600)):
+                        opsq += 1
+                        acc.evaluations += 1
+                        if "ok" not in r:
+                            what = r.get("violation") or ("panic: %s" % r.get("panic"))
+                            acc.violate(sig_of("operator-sequence: " + str(what)), "%s [%s]: input %r" % (what, kind, s_), {"input": s_, "build": kind, "what": what})
+                acc.count("operator_sequences_with_to_" + kind, opsq)
             # a few concrete samples through the per-item op
             for s in ["1 + {a b}", "3 * (1 + 2) to m", "°C'x…", "1e+", "round(1.5 , 2 )"]:
                 r = d.call({"op": "lex", "s": s})
